@@ -75,6 +75,7 @@ class Writer:
 
         self.segments: List[Tuple[int, int, int, int]] = []
         self.data: List[int] = []  # words array
+        self.output_file_created = False  # did write_to_file() create (or truncate) the output file
 
     def _compress_data(self, data: bytes) -> bytes:
         try:
@@ -92,6 +93,7 @@ class Writer:
         word_format = {8: 'B', 16: 'H', 32: 'L', 64: 'Q'}[self.word_size]
 
         with open(self.output_file, 'wb') as f:
+            self.output_file_created = True
             f.write(pack(_header_base_format, FJ_MAGIC, self.word_size, self.version.value, len(self.segments)))
             if FJMVersion.BaseVersion != self.version:
                 f.write(pack(_header_extension_format, self.flags, self.reserved))
